@@ -108,8 +108,6 @@ class Env:
         self.user = asyncssh.generate_private_key('ssh-ed25519')
         self.user2 = asyncssh.generate_private_key('ssh-ed25519')
         self.pub = {id(k): k.convert_to_public() for k in list(self.keys.values()) + [self.ca, self.ca2, self.user, self.user2]}
-        self.consume_unknown = self.probe_consume_unknown()
-        self.sshsig_want = self.probe_sshsig_want()
 
     def public(self, k):
         return self.pub[id(k)]
@@ -139,31 +137,9 @@ class Env:
         except Exception as e:
             return None, type(e).__name__
 
-    def probe_consume_unknown(self):
-        import random
-        spec = self.spec_for(self.user, self.ca, random.Random(0),
-                             exts=L.enc_pairs([(b'foo@verif', b'permit-pty'), (b'', b'')]))
-        blob, _ = self.sign_spec(spec, self.ca)
-        cert, err = self.real_import(blob)
-        if cert is None:
-            self.ctx.broke('probe:unknown-extension', f'probe certificate rejected ({err})')
-            return False
-        return 'permit-pty' not in cert.options
-
     def sshsig_blob(self, key, cert, msg, namespace='file', hash_name='sha512', raw=True):
         kp = self.a.load_keypairs([(key, cert)] if cert is not None else [key])
         return self.a.create_sshsig(kp, msg, namespace=namespace, hash_name=hash_name, raw=raw)
-
-    def probe_sshsig_want(self):
-        hc = self.ca.generate_host_certificate(self.user, 'probe', principals=['alice'])
-        sig = self.sshsig_blob(self.user, hc, b'm')
-        line = 'alice cert-authority ' + self.ca.export_public_key().decode().strip() + '\n'
-        try:
-            ok = self.a.validate_sshsig(b'm', sig, 'alice', line.encode())
-        except Exception as e:
-            self.ctx.broke('probe:sshsig-host-cert', repr(e))
-            return 0
-        return 0 if ok else 1
 
 
 # ================================================================================================
@@ -580,8 +556,8 @@ def _stage_certs(ctx, env, rng, thorough, a, tmp):
         else:
             calls, pubs = rec.sig_calls, rec.pub_ok
         obs = cert_obs(cert, spec) if cert is not None else None
-        imp_cases.append('(%s, %s, %s, %s, %s, %s, %s)' % (
-            cbool(env.consume_unknown), zl(blob), coq_calls(calls), clist(pubs, zl), cbool(kf), clist(addrs_for(spec), zl),
+        imp_cases.append('(%s, %s, %s, %s, %s, %s)' % (
+            zl(blob), coq_calls(calls), clist(pubs, zl), cbool(kf), clist(addrs_for(spec), zl),
             copt(obs, coq_cert_obs)))
         ctx.count('cert_import.' + note + ('.accepted' if cert is not None else '.rejected'))
         return cert, err
@@ -681,8 +657,22 @@ def _stage_certs(ctx, env, rng, thorough, a, tmp):
         for data in VALS:
             targeted.append(dict(typ=1, opts=[], exts=[(name, data)]))
             targeted.append(dict(typ=1, opts=[], exts=[(name, data), (b'', b'')]))
+    always = [dict(typ=1, opts=[], exts=[(b'foo@verif', b'permit-pty'), (b'', b'')]),          # data spelling a known name
+              dict(typ=1, opts=[], exts=[(b'foo@verif', b'permit-pty')]),
+              dict(typ=1, opts=[], exts=[(b'foo@verif', S(b'bar')), (b'permit-pty', b'')]),
+              dict(typ=1, opts=[], exts=[(b'foo@verif', b'no-touch-required'), (b'', b''), (b'permit-pty', b'')]),
+              dict(typ=2, opts=[(b'verified-only@verif', b'')], exts=[]),                       # host: nothing is understood
+              dict(typ=2, opts=[(b'force-command', S(b'ls'))], exts=[]),
+              dict(typ=2, opts=[(b'source-address', S(b'10.0.0.0/8'))], exts=[]),
+              dict(typ=2, opts=[], exts=[(b'permit-pty', b'')]),
+              dict(typ=2, opts=[], exts=[(b'foo@verif', b'x')]),
+              dict(typ=1, opts=[(b'verified-only@verif', b'')], exts=[]),
+              dict(typ=1, opts=[(b'force-command', S(b'ls')), (b'verified-only@verif', S(b'x'))], exts=[])]
+    always += [dict(typ=2, opts=[], exts=[], raw_opts=b'\0\0\0'), dict(typ=2, opts=[], exts=[], raw_exts=S(b'x')),
+               dict(typ=1, opts=[], exts=[], raw_exts=S(b'foo@verif'))]
     if not thorough:
-        targeted = targeted[:4] + rng.sample(targeted[4:], 110)
+        targeted = targeted[:4] + rng.sample(targeted[4:], 100)
+    targeted = targeted[:4] + always + targeted[4:]
     for i in range(len(targeted) + n_hand):
         plan = targeted[i] if i < len(targeted) else None
         caalg, ca = ('ssh-ed25519', env.ca) if rng.random() < 0.8 else rng.choice(cas)
@@ -702,6 +692,10 @@ def _stage_certs(ctx, env, rng, thorough, a, tmp):
             oraw = oraw[:-1] if oraw else b'\0\0\0'
         if rng.random() < 0.04 and not plan:
             eraw = eraw + b'\0'
+        if plan and plan.get('raw_opts') is not None:
+            oraw = plan['raw_opts']
+        if plan and plan.get('raw_exts') is not None:
+            eraw = plan['raw_exts']
         keyid = rng.choice([b'id', b'', b'r\xc3\xa9mi', b'\xff'] if rng.random() < 0.2 and not plan else [b'id'])
         spec = env.spec_for(subj, ca, rng, typ=typ, keyid=keyid, princ=praw, va=va, vb=vb, opts=oraw, exts=eraw,
                             rsv=rng.choice([b'', b'', b'', b'x']))
@@ -739,7 +733,28 @@ def _stage_certs(ctx, env, rng, thorough, a, tmp):
         cert, err = run_import(blob, spec, note, kf)
         if err not in (None, 'KeyImportError'):
             continue
-        strs_ok = True
+        if cert is not None and note in ('handbuilt', 'bad_subject_key', 'alg_name'):
+            # what the CA signed, read as (name, data) pairs, against what the import reports
+            granted = sorted(n for n in L.EXT_BOOLS if cert.options.get(n.decode()) is not None)
+            try:
+                strs = L.split_strings(spec.exts)
+                epairs = list(zip(strs[0::2], strs[1::2])) if len(strs) % 2 == 0 else None
+            except L.ParseError:
+                epairs = None
+            if epairs is None:
+                ok_ext = False
+            elif spec.typ == 1:
+                ok_ext = granted == sorted({n for n, d in epairs if n in L.EXT_BOOLS})
+            else:
+                ok_ext = not granted
+            if not ok_ext:
+                ctx.failing_input('certificate imported with extensions ' + repr(granted) + ' although the signed extensions field '
+                                  + ('is not a sequence of (name, data) pairs' if epairs is None else
+                                     'names ' + repr(sorted({n for n, d in epairs}))),
+                                  dict(kind='cert_extensions', blob=blob.hex(), granted=[g.decode() for g in granted]))
+        if cert is not None and note in ('wrong_signer', 'altered_after_signing', 'length_damage'):
+            ctx.failing_input(f'certificate imports although the CA signature does not cover exactly these bytes ({note})',
+                              dict(kind='cert_import', blob=blob.hex(), expect='reject', damage=note))
         try:
             pnames = L.split_strings(spec.princ)
             if any(utf8_cps(n) is None for n in pnames):
@@ -842,9 +857,9 @@ def _stage_certs(ctx, env, rng, thorough, a, tmp):
             ('cert_enc', 'chk_cert_enc', enc_cases, 'cert_fields * bytes * bytes', 40),
             ('strings_enc', 'chk_strings_enc', str_cases, 'list bytes * bytes', 400),
             ('cert_import', 'chk_cert_import', imp_cases,
-             'bool * bytes * sig_calls * list bytes * bool * list bytes * option cert_obs', 60),
+             'bytes * sig_calls * list bytes * bool * list bytes * option cert_obs', 60),
             ('dec_options', 'chk_dec_options', opt_cases,
-             'bool * bool * bool * bytes * list bytes * option (list (option bytes))', 400),
+             'bool * bool * bytes * list bytes * option (list (option bytes))', 400),
             ('validate', 'chk_validate', val_cases, 'Z * Z * Z * list (list Z) * Z * option (list Z) * Z * bool', 400)):
         submit(ctx, name, chk, cases, ty, shard)
 
@@ -910,7 +925,7 @@ def decode_options_cases(env, oraw, eraw):
                 slots = None
             else:
                 raise
-        out.append('(%s, %s, %s, %s, %s, %s)' % (cbool(env.consume_unknown), cbool(critical), cbool(ext), zl(raw),
+        out.append('(%s, %s, %s, %s, %s)' % (cbool(critical), cbool(ext), zl(raw),
                                                  clist(ADDRS_OK, zl), copt(slots, lambda s: clist(s, lambda x: copt(x, zl)))))
     return out
 
@@ -1025,6 +1040,8 @@ def _stage_sshsig(ctx, env, rng, thorough, a, tmp):
             ekey = key if k < 0.5 else (env.ca if k < 0.8 else rng.choice([env.user2, env.ca2, env.user]))
             e_ca = (ekey in (env.ca, env.ca2) and rng.random() < 0.8) or rng.random() < 0.1
             pl = gen_patlist(rng, PR) if rng.random() < 0.6 else [(False, principal)]
+            if pl == [(False, '')]:
+                pl = [(False, '*')]       # a line cannot start with an empty principals field
             nsl = None if rng.random() < 0.5 else gen_patlist(rng, NS)
             eva = None if rng.random() < 0.7 else T0 + rng.choice([-100, 0, 100])
             evb = None if rng.random() < 0.7 else T0 + rng.choice([-100, 0, 1, 100])
@@ -1086,14 +1103,16 @@ def _stage_sshsig(ctx, env, rng, thorough, a, tmp):
                 ctx.count('sshsig_raised.' + type(e).__name__, group='oracle')
                 continue
         outcomes[got] = outcomes.get(got, 0) + 1
+        if got == 0:
+            ctx.count('sshsig_accept_signer.' + ('key' if cert is None else 'certificate'))
         ctx.count('sshsig.%s.%s' % (alt if alt != 'none' else 'intact', ('accept', 'reject', 'valueerror')[got]))
         ctx.note_case(('sshsig', salg, ckind, alt, ns, hname, principal, tuple(e.line()[:60] for e in entries), now, len(msg)), nontrivial=True)
         digests = [(h.encode(), hashlib.new(h, vmsg).digest()) for h in ('sha256', 'sha512')]
         if rec.odd_exc:
             ctx.count('sshsig_key_decoder_raised_undocumented_exception', group='oracle')
         if rec.available and not rec.odd_exc:
-            cases.append('(%s, %s, %s, %s, %s, %s, %s, %s, %s, %s, %s, %s, %s)' % (
-                cz(env.sshsig_want), cbool(env.consume_unknown), zl(vmsg), cbool(is_hashed), zl(vraw), zs(principal),
+            cases.append('(%s, %s, %s, %s, %s, %s, %s, %s, %s, %s, %s)' % (
+                zl(vmsg), cbool(is_hashed), zl(vraw), zs(principal),
                 clist(entries, lambda e: e.coq()), cz(now), coq_calls(rec.sig_calls), clist(rec.pub_ok, zl),
                 clist(ADDRS_OK, zl), clist(digests, lambda d: '(%s, %s)' % (zl(d[0]), zl(d[1]))), cz(got)))
         # direct oracle: what the property allows
@@ -1171,14 +1190,15 @@ def _stage_sshsig(ctx, env, rng, thorough, a, tmp):
                                    'allowed_signers': text, 'now_minus_T0': now - T0, 'result': ('accept', 'reject', 'ValueError')[got]}})
     ctx.cov['oracle']['ssh_keygen_Y_runs'] = kg_runs
     ctx.cov['oracle']['ssh_keygen_Y_disagreements'] = kg_dis
-    ctx.cov['oracle']['sshsig_cert_type_passed_to_validate'] = 'ANY' if env.sshsig_want == 0 else 'USER'
     if min(outcomes.get(0, 0), outcomes.get(1, 0), outcomes.get(2, 0)) < 3:
         ctx.broke('vacuity:sshsig', f'outcomes {outcomes}')
     d = ctx.cov['distribution']
+    if not d.get('sshsig_accept_signer.key') or not d.get('sshsig_accept_signer.certificate'):
+        ctx.broke('vacuity:sshsig', 'no accepted case for a key signer / a certificate signer')
     if not d.get('allowed_signers.match') or not d.get('allowed_signers.nomatch'):
         ctx.broke('vacuity:allowed_signers', 'no match / no mismatch generated')
     for name, chk, cs, ty, shard in (
-            ('sshsig', 'chk_sshsig', cases, 'Z * bool * bytes * bool * bytes * list Z * list as_entry * Z * sig_calls * list bytes '
+            ('sshsig', 'chk_sshsig', cases, 'bytes * bool * bytes * list Z * list as_entry * Z * sig_calls * list bytes '
                                             '* list bytes * list (bytes * bytes) * Z', 40),
             ('signed_data', 'chk_signed_data', sd_cases, 'bytes * bool * bytes * bytes * list (bytes * bytes) * option bytes', 200),
             ('allowed_signers', 'chk_as_validate', as_cases, 'list as_entry * bytes * list Z * list Z * Z * bool * bool', 200)):
@@ -1186,6 +1206,7 @@ def _stage_sshsig(ctx, env, rng, thorough, a, tmp):
 
     # targeted: certificate kinds through a cert-authority line (deterministic, every run)
     ca_line = 'alice cert-authority ' + env.ca.export_public_key().decode().strip() + '\n'
+    t_cases = []
     for ckind, gen, kw, expect in (
             ('user', env.ca.generate_user_certificate, dict(principals=['alice']), True),
             ('user_no_principals', env.ca.generate_user_certificate, dict(principals=[]), True),
@@ -1196,11 +1217,19 @@ def _stage_sshsig(ctx, env, rng, thorough, a, tmp):
             ('other_ca', env.ca2.generate_user_certificate, dict(principals=['alice']), False)):
         cert = gen(env.user, 'targeted', **kw)
         raw = env.sshsig_blob(env.user, cert, b'payload')
-        with L.clock(T0):
+        with L.Recorder() as rec, L.clock(T0):
             try:
                 ok = bool(a.validate_sshsig(b'payload', raw, 'alice', ca_line.encode()))
+                got = 0 if ok else 1
             except ValueError:
-                ok = False
+                ok, got = False, 2
+        if rec.available and not rec.odd_exc:
+            dg = [(h.encode(), hashlib.new(h, b'payload').digest()) for h in ('sha256', 'sha512')]
+            t_cases.append('(%s, %s, %s, %s, %s, %s, %s, %s, %s, %s, %s)' % (
+                zl(b'payload'), cbool(False), zl(raw), zs('alice'), clist([Entry([(False, 'alice')], True, None, None, None, env.ca)],
+                                                                         lambda e: e.coq()),
+                cz(T0), coq_calls(rec.sig_calls), clist(rec.pub_ok, zl), clist(ADDRS_OK, zl),
+                clist(dg, lambda d: '(%s, %s)' % (zl(d[0]), zl(d[1]))), cz(got)))
         ctx.count('sshsig_targeted.%s.%s' % (ckind, 'accept' if ok else 'reject'))
         ctx.note_case(('sshsig_targeted', ckind), nontrivial=True)
         if ok != expect:
@@ -1210,6 +1239,9 @@ def _stage_sshsig(ctx, env, rng, thorough, a, tmp):
             ctx.failing_input(what, dict(kind='sshsig', msg=b'payload'.hex(), sig=raw.hex(), principal='alice', signers=ca_line,
                                          now=T0, is_hashed=False, expect='accept' if expect else 'reject', signer=ckind,
                                          alteration='none'))
+
+    submit(ctx, 'sshsig_targeted', 'chk_sshsig', t_cases, 'bytes * bool * bytes * list Z * list as_entry * Z * sig_calls * list bytes '
+                                                          '* list bytes * list (bytes * bytes) * Z', 40)
 
     # every single-byte edit of a raw SSHSIG blob (implementation sweep)
     nsw = 0
@@ -1280,7 +1312,6 @@ def run(ctx):
     ]
     ctx.prove()
     env = Env(ctx)
-    ctx.cov['oracle']['code_variant_decode_options_consumes_unknown_value'] = env.consume_unknown
     check_tables(ctx, env)
     stage_codecs(ctx, env)
     ctx.log('codecs done')
@@ -1291,6 +1322,21 @@ def run(ctx):
     stage_sshsig(ctx, env)
     ctx.log('sshsig done')
     run_jobs(ctx)
+    o = ctx.cov['oracle']
+    dev = []
+    if o.get('rsa_same_hash_alias_names_accepted'):
+        dev.append('RSA: a signature verifies under every registered algorithm name that selects the same hash '
+                   '(rsa-sha2-256 / ssh-rsa-sha256@ssh.com / rsa2048-sha256, ...): same scheme, not reachable by a single-byte edit')
+    if o.get('ssh_keygen_Y_disagreements.cert_signer_plain_key_entry'):
+        dev.append('validate_sshsig matches the subject key of a certificate-signed SSHSIG against plain (non cert-authority) '
+                   'allowed-signers entries and then does not look at the certificate (ssh-keygen does not match such entries)')
+    if o.get('ssh_keygen_Y_disagreements.cert_without_principals'):
+        dev.append('validate_sshsig accepts a certificate without principals for any principal (the property allows it; '
+                   'ssh-keygen -Y verify requires a principals list)')
+    exc = {k: v for k, v in o.items() if 'raised' in k or 'unexpected' in k}
+    if any(exc.values()):
+        dev.append('undocumented exception classes escape key/certificate decoding of damaged blobs (never an accept): ' + repr(exc))
+    o['judged_deviations_not_violations'] = dev
 
 
 def replay(rp):
@@ -1333,6 +1379,22 @@ def replay(rp):
                     accepted = False
         print('accepted' if accepted else 'rejected', '(expected %s)' % rp['expect'])
         return 1 if accepted != (rp['expect'] == 'accept') else 0
+    if kind == 'cert_extensions':
+        blob = bytes.fromhex(rp['blob'])
+        try:
+            cert = asyncssh.public_key.decode_ssh_certificate(blob)
+        except Exception as e:
+            print('import ->', type(e).__name__)
+            return 0
+        spec, _ = L.parse_cert(blob, nkey)
+        try:
+            strs = L.split_strings(spec.exts)
+            names = set(strs[0::2]) if len(strs) % 2 == 0 else None
+        except L.ParseError:
+            names = None
+        granted = {n for n in L.EXT_BOOLS if cert.options.get(n.decode()) is not None}
+        print('granted', sorted(granted), 'named in the signed field', None if names is None else sorted(names))
+        return 1 if names is None or not granted <= names else 0
     if kind == 'sshsig':
         import contextlib
         cm = L.clock(rp['now']) if rp.get('now') is not None else contextlib.nullcontext()
